@@ -126,9 +126,11 @@ class Scen(CompScenario):
 
         ready = {"push": level < n, "write": True, "read": True, "remove": True}
         for p in self.ports:
-            if en[p]:
+            if en[p] and p == "push":  # the statement gives the readiness of push only
                 self.expect(obs[f"{p}.runnable"] == int(ready[p]), "ready-mismatch",
                             f"{p} callable={obs[f'{p}.runnable']} with {level}/{n} slots in use", port=p)
+            elif en[p] and not obs[f"{p}.runnable"]:
+                self.hit(f"{p}_not_callable")
             self.expect(not done[p] or (en[p] and ready[p]), "ran-when-not-callable",
                         f"{p}: en={en[p]} done={done[p]} with {level}/{n} slots in use", port=p)
             if en[p] and ready[p] and not done[p]:
@@ -218,6 +220,9 @@ class Prop(PropBase):
             "transactron.utils.amaranth_ext.elaboratables.MultiPriorityEncoder", "transactron.lib.adapters.AdapterTrans",
             "TransactionManager + scheduler", "amaranth pysim"]
     stubs = ["cycle driver (stimulus)", "dict reference model"]
+    assumptions = ["'a slot is free' (push readiness) is judged on the content at the beginning of the cycle: a remove executed "
+                   "in the same cycle does not make room for the push; read / write answer for the content at the beginning "
+                   "of the cycle; of the calls executed in one cycle write is applied first, then remove, then push"]
     search_space = ("ContentAddressableMemory configurations (entries 1-6, 2-3 key bits, data layouts) and "
                     "push/write/read/remove call histories that never push a present key")
 
